@@ -208,6 +208,61 @@ static void bb64(void) {
 	}
 }
 
+/* ---- a zlib block whose stored stream is >= 1 GiB: the reader's first guess for the inflate buffer (4 x stored size) then reaches
+ * 2^32, beyond zlib's 32-bit avail_out (finding F13).  One entry "k" -> `vlen` incompressible bytes, stream made of stored deflate
+ * blocks by zlib itself (level 0), both format versions; thorough tier only (about 6 GiB of memory, half a minute). ---- */
+static uint8_t zb_byte(uint64_t *st) { *st ^= *st << 13; *st ^= *st >> 7; *st ^= *st << 17; return (uint8_t) (*st >> 24); }
+static void zbig_one(int version, size_t vlen) {
+	ecase c = { 0 }; c.version = 66; c.comp = version; c.prefix = vlen;
+	vh_case_begin(render, &c);
+	if (!vh_batch_fork()) { vh_case_end(); return; }
+	vh_watchdog_s = 900;
+	uint8_t hdr[32]; size_t hl = 0; hl += ic_putvar(hdr + hl, 0); hl += ic_putvar(hdr + hl, 1); hl += ic_putvar(hdr + hl, vlen); hdr[hl++] = 'k';
+	size_t rawlen = hl + vlen + 8;
+	uint8_t *raw = malloc(rawlen); if (!raw) { printf("@error \"zbig: out of memory\"\n"); vh_batch_exit(); }
+	memcpy(raw, hdr, hl); uint64_t st = 88172645463325252ull; for (size_t i = 0; i < vlen; i++) raw[hl + i] = zb_byte(&st);
+	ic_put32(raw + hl + vlen, 0); ic_put32(raw + hl + vlen + 4, 1);
+	vh_case_seq++;
+	uLongf cl = compressBound(rawlen); uint8_t *cz = malloc(cl); if (!cz || compress2(cz, &cl, raw, rawlen, 0) != Z_OK) { printf("@error \"zbig: zlib refuses to build the stream\"\n"); vh_batch_exit(); }
+	free(raw);
+	vh_case_seq++;
+	int fd = tbl_memfd(); uint8_t tmp[16]; size_t n; uint64_t off = 0;
+	#define ZB_PUT(p_, n_) do { const uint8_t *q_ = (const uint8_t *) (p_); size_t left_ = (n_); while (left_) { ssize_t w_ = write(fd, q_, left_ > (1u << 30) ? (1u << 30) : left_); if (w_ <= 0) { perror("write"); abort(); } q_ += w_; left_ -= w_; off += w_; } } while (0)
+	if (version == 1) { ic_put32(tmp, (uint32_t) cl); n = 4; } else n = ic_putvar(tmp, cl);
+	ZB_PUT(tmp, n); ic_put32(tmp, ic_crc32c(cz, cl)); ZB_PUT(tmp, 4); ZB_PUT(cz, cl);
+	free(cz);
+	uint64_t bytes_data = off, ioff = off;
+	uint8_t offv[10]; ic_enc_ent ie = { (const uint8_t *) "k", 1, offv, ic_putvar(offv, 0), true, 0 };
+	ic_buf ib = { 0 }; ic_enc_block(&ib, &ie, 1); ic_buf f = { 0 }; ic_enc_store(&f, ib.p, ib.n, IC_NONE, version);
+	uint64_t fields[9] = { ioff, 8192, IC_ZLIB, 1, 1, bytes_data, f.n, 1, vlen };
+	ic_enc_trailer(&f, version, fields); ZB_PUT(f.p, f.n); free(f.p); free(ib.p);
+	vh_case_seq++;
+	struct mtbl_reader *r = mtbl_reader_init_fd(fd, NULL);
+	if (!r) vh_violation("zlib-big", "reader refuses a well-formed v%d file with one %zu-byte value in a zlib block", version, vlen);
+	else {
+		const struct mtbl_source *src = mtbl_reader_source(r);
+		for (int how = 0; how < 2; how++) {
+			struct mtbl_iter *it = how ? mtbl_source_get(src, (const uint8_t *) "k", 1) : mtbl_source_iter(src);
+			const uint8_t *k, *v; size_t kl, vl;
+			if (mtbl_iter_next(it, &k, &kl, &v, &vl) != mtbl_res_success) vh_violation("zlib-big", "%s returns nothing from a well-formed file with one %zu-byte value in a zlib block", how ? "get" : "iteration", vlen);
+			else {
+				bool ok = kl == 1 && k[0] == 'k' && vl == vlen; uint64_t s2 = 88172645463325252ull;
+				for (size_t i = 0; ok && i < vlen; i++) if (v[i] != zb_byte(&s2)) ok = false;
+				if (!ok) vh_violation("zlib-big", "%s returns key length %zu, value length %zu (expected 1, %zu) or wrong bytes", how ? "get" : "iteration", kl, vl, vlen);
+				if (mtbl_iter_next(it, &k, &kl, &v, &vl) == mtbl_res_success) vh_violation("zlib-big", "a second entry appears");
+			}
+			mtbl_iter_destroy(&it); vh_case_seq++; VH_COUNT("transitions", 1);
+		}
+		mtbl_reader_destroy(&r);
+	}
+	close(fd);
+	VH_COUNT("cases", 1); VH_COUNT("states", 1); VH_COUNT("zlib_big_files", 1);
+	vh_sig(vh_mix(66, version * 4 + (vlen >> 29)));
+	vh_case_end();
+	vh_batch_exit();
+}
+static void zbig(void) { zbig_one(2, (size_t) 1 << 30); zbig_one(1, ((size_t) 1 << 30) - 300000); zbig_one(2, (size_t) 100 << 20); }
+
 int main(int argc, char **argv) {
 	vh_init(argc, argv);
 	nU = u5_gen(U, 2);
@@ -218,12 +273,14 @@ int main(int argc, char **argv) {
 		if (sscanf(s, "E:%d:%d:%zu:%u:%u:%n", &c.version, &c.comp, &c.prefix, &c.cutmask, &c.restartmask, &off) < 5) return 2;
 		if (c.version == 64) { restart64(); return vh_finish(); }
 		if (c.version == 65) { bb64(); return vh_finish(); }
+		if (c.version == 66) { zbig_one(c.comp, c.prefix); return vh_finish(); }
 		s += off; while (*s && c.n < MAXN) { int o2; if (sscanf(s, "%d.%d.%d,%n", &c.key[c.n], &c.share[c.n], &c.sep[c.n], &o2) < 3) break; c.n++; s += o2; }
 		check(&c); vh_count("transitions", n_lookups); return vh_finish();
 	}
 	const char *mode = vh_arg(0, "enc");
 	if (!strcmp(mode, "restart64")) { if (vh_shard == 0) restart64(); return vh_finish(); }
 	if (!strcmp(mode, "bb64")) { if (vh_shard == 0) bb64(); return vh_finish(); }
+	if (!strcmp(mode, "zbig")) { if (vh_shard == 0) zbig(); return vh_finish(); }
 	uint64_t idx = 0;
 	int maxn = vh_thorough ? 5 : 4;
 	static const int comps[6] = { 0, 1, 2, 3, 4, 5 };
